@@ -18,6 +18,7 @@ use crate::util;
 fn dispatch(kind: &str, case: &Value, dir: &Path) -> Value {
     match kind {
         "c08" => crate::props::c08::worker_case(case, dir),
+        "c18" => crate::props::c18::worker_case(case, dir),
         _ => json!({"machinery_error": format!("unknown worker kind {kind}")}),
     }
 }
